@@ -84,19 +84,20 @@ PROPS = {
                           'and GLOBAL OPTIMALITY to 1e-6 of trsbox_geometry / trsbox_linear (active-set loop, nonlinear invariants over symbolic dimension) and the (1+1e-8) rounding slack. '
                           'A-params sub-range: func_tol.max_iters >= 1 (0 is accepted by the parameter check and leaves a local unbound in ctrsbox_sfista).',
             'not_decided': ['trsbox_linear (active-set loop): feasibility on its other return paths and optimality of each candidate to 1e-6', 'floating-point slack (1+1e-8)']},
-    'C14': {'bundles': ['box', 'ledger', 'coord', 'dirlen'], 'level': 'proof',
+    'C14': {'bundles': ['box', 'ledger', 'coord', 'coordoff', 'dirlen'], 'level': 'proof',
             'level_text': 'Partial claim: (1) both random-direction generators clip every returned direction into [lower, upper] exactly (binary64, loop invariant over the final clipping loop '
                           'with a ghost column index: an off-by-one in that loop is refuted); (2) every initial point that is evaluated is produced by as_absolute_coordinates and therefore lies '
                           'inside the bounds exactly, and the first evaluation is the (pushed / projected) x0 (shared with C01); (3) exactly one point per direction is offered to the model with '
                           'all its samples (ledger obligations of the two initialisers); (4) coordinate initialisation (serial and batched, k <= 2n): every point handed to the objective moves exactly '
                           'one coordinate of x0 and, after the clip to the box, lies between 0.01*rhobeg and 2*rhobeg from x0 (real arithmetic, loop invariant over the scratch array of steps); '
+                          '(4b) off-diagonal initial points (k > 2n, npt up to (n+1)(n+2)/2; bundle coordoff): every first-step row of the scratch array still holds a step of size exactly rhobeg when an off-diagonal point copies it (an exchange with the second-step row is only possible for a coordinate at neither bound and brings in -rhobeg, never the 2*rhobeg step: loop invariant on the real loop, the guard stepa*stepb < 0 included), so each such point moves at most two coordinates, each by a clipped step in [0.01, 1]*rhobeg; '
                           '(5) both generators return exactly num_pts directions, get_scale is in [0, delta], every direction of random_directions_within_bounds is at most delta long and every '
                           'direction of random_orthog_directions_within_bounds at most delta, except the extra active-constraint directions (2*delta: refuted, known finding D17; the 2*delta envelope is proved).',
             'level_note': BOX_NOTE + ' Clauses (4) and (5) are over the reals (domains Cd / Vd): 0.01*delta, 2.0*delta and vector norms are exact; the library facts about norms (entry of a zero vector, '
                           'v/||v||, Q factor of qr, clipping to a box containing 0) are assumed and listed. Preconditions sl <= 0 <= su, gap >= 2*rhobeg (4) and lower <= 0 <= upper (5) are assumed clauses '
                           '(C01 and the input check of solve). NOT decided: affine independence and the condition number < 1e4 (numerical linear algebra), the projections branch of the coordinate initialiser '
-                          '(random QR directions), the off-diagonal points k > 2n (outside the property\'s range npt <= 2n+1).',
-            'not_decided': ['affine independence / condition number', 'projections branch of initialise_coordinate_directions', 'off-diagonal initial points (npt > 2n+1)']},
+                          '(random QR directions).',
+            'not_decided': ['affine independence / condition number', 'projections branch of initialise_coordinate_directions']},
     'C15': {'bundles': ['vecs', 'box'], 'steps': [lean_step], 'level': 'proof',
             'level_text': 'dykstra is verified on its real body in two domains. Real vectors: sweeps <= max_iter; the stop quantity equals the sum of squared moves of the sweep (ghost sequence), '
                           'every sub-iterate lies in its set, hence "stopped by the rule" gives exactly the hypothesis of lemma L1, whose conclusion ||x_p - x_i|| <= sqrt(p*tol) is proved in Lean 4 '
